@@ -228,10 +228,17 @@ class FacetBasis(AbstractBasis):
             Set to `np.complex64` or similar to use complex numbers.
 
         """
+        from copy import copy
         from skfem.utils import solve, condense
+
+        if facets is not None:
+            # integrate over the given facets only
+            sub = copy(self)
+            sub.dx = self.dx * np.isin(
+                self.find, self.mesh.normalize_facets(facets))[:, None]
+            M, f = sub._projection(interp, dtype=dtype)
+            return solve(*condense(M, f, I=self.get_dofs(facets=facets)))
 
         M, f = self._projection(interp, dtype=dtype)
 
-        if facets is not None:
-            return solve(*condense(M, f, I=self.get_dofs(facets=facets)))
         return solve(*condense(M, f, I=self.get_dofs(facets=self.find)))
